@@ -282,12 +282,15 @@ func YieldBlocked() {
 		runtime.Goexit()
 	}
 	me := cur
-	noteProgress(me)
+	before := epoch
+	noteProgress(me) // (may move the counter: this task's own doings are news to the others, not to itself)
 	me.idleEpoch = epoch
 	if me.roundEpoch >= 0 {
 		// the tries of a select were made a while ago (the task may have been preempted since):
-		// whatever changed after they began counts as news
-		me.idleEpoch = me.roundEpoch
+		// whatever OTHERS changed after they began counts as news
+		if me.roundEpoch != before {
+			me.idleEpoch = me.roundEpoch
+		}
 		me.roundEpoch = -1
 	}
 	trace("blocked")
